@@ -36,6 +36,7 @@ var env *stackenv.Env
 type Action struct {
 	Kind string `json:"kind"`
 	Ms   int    `json:"ms,omitempty"`
+	Us   int    `json:"us,omitempty"`
 }
 
 // Step is one update of the script with the faults of its exchanges.
@@ -62,6 +63,7 @@ type exchange struct {
 	action   Action
 	answered time.Time
 	werr     error
+	tariff   int64 // unit cost carried by a rating answer (identifies it, too)
 }
 
 type subPlan struct {
@@ -71,6 +73,7 @@ type subPlan struct {
 	exchanges []*exchange
 	nAbmf     int
 	nReserve  int
+	nRating   int
 }
 
 var (
@@ -89,9 +92,27 @@ func schedule(a Action, f func()) {
 	case "drop":
 	case "late", "slow":
 		go func() { time.Sleep(time.Duration(a.Ms) * time.Millisecond); f() }()
+	case "boundary":
+		// aimed at the client's 5 s timer itself: Us microseconds after the request was received
+		go func() { time.Sleep(time.Duration(a.Ms)*time.Millisecond + time.Duration(a.Us)*time.Microsecond); f() }()
 	default:
 		f()
 	}
+}
+
+// writeAnswer sends the answer; a "dup" action sends it twice in one write (one TLS record), the way a
+// retransmitting peer's answers can reach the client back to back.
+func writeAnswer(c diam.Conn, a *diam.Message, act Action) error {
+	var buf bytes.Buffer
+	if _, err := a.WriteTo(&buf); err != nil {
+		return err
+	}
+	out := buf.Bytes()
+	if act.Kind == "dup" {
+		out = append(append([]byte{}, out...), out...)
+	}
+	_, err := c.Write(out)
+	return err
 }
 
 func startPeers(rfPort, abmfPort int, pemF, keyF string) error {
@@ -119,15 +140,17 @@ func startPeers(rfPort, abmfPort int, pemF, keyF string) error {
 				ex.action = p.steps[p.step].Reserve
 			}
 		}
+		p.nRating++
+		ex.tariff = int64(2 + p.nRating%5) // every rating answer carries its own unit cost
 		p.exchanges = append(p.exchanges, ex)
 		p.mu.Unlock()
 		sua := cdt.ServiceUsageResponse{SessionId: sur.SessionId, EventTimestamp: datatype.Time(time.Now()), ServiceRating: &cdt.ServiceRating{
 			AllowedUnits: datatype.Unsigned32(ex.value), Price: sur.ServiceRating.ConsumedUnits,
-			MonetaryTariff: &cdt.MonetaryTariff{CurrencyCode: 901, RateElement: &cdt.RateElement{CCUnitType: cdt.MONEY, UnitCost: &cdt.UnitCost{ValueDigits: 1, Exponent: 0}}}}}
+			MonetaryTariff: &cdt.MonetaryTariff{CurrencyCode: 901, RateElement: &cdt.RateElement{CCUnitType: cdt.MONEY, UnitCost: &cdt.UnitCost{ValueDigits: datatype.Integer64(ex.tariff), Exponent: 0}}}}}
 		schedule(ex.action, func() {
 			a := m.Answer(diam.Success)
 			_ = a.Marshal(&sua)
-			_, err := a.WriteTo(c)
+			err := writeAnswer(c, a, ex.action)
 			p.mu.Lock()
 			ex.answered, ex.werr = time.Now(), err
 			p.mu.Unlock()
@@ -159,7 +182,7 @@ func startPeers(rfPort, abmfPort int, pemF, keyF string) error {
 		schedule(ex.action, func() {
 			a := m.Answer(diam.Success)
 			_ = a.Marshal(&cca)
-			_, err := a.WriteTo(c)
+			err := writeAnswer(c, a, ex.action)
 			p.mu.Lock()
 			ex.answered, ex.werr = time.Now(), err
 			p.mu.Unlock()
@@ -295,7 +318,14 @@ func runScript(sc Script) scriptResult {
 		}
 		desc := fmt.Sprintf("update %d (took %.1f s) of script %+v: reservation %d -> %d, granted %d; exchanges of this update: %s", i, el.Seconds(), sc, pre.Reserved[1], post.Reserved[1], granted, describe(mine))
 		// (1) no cross-talk: what the operation acted on is the answer to its own request
-		if abmfEx != nil {
+		if abmfEx != nil && abmfEx.action.Kind == "boundary" {
+			// the answer races the timeout: either outcome is this update's own business, nothing else is
+			lateSeen = true
+			if !(delta == 0 && granted < 0) && delta != int64(abmfEx.value) {
+				r.sig, r.msg = "crosstalk/abmf/foreign-answer", desc+fmt.Sprintf(" -- the answer to this update's own credit-control request (racing the timeout) granted %d", abmfEx.value)
+				return r
+			}
+		} else if abmfEx != nil {
 			if withheld(abmfEx.action) {
 				lateSeen = true
 				if delta != 0 || granted >= 0 {
@@ -311,7 +341,13 @@ func runScript(sc Script) scriptResult {
 				return r
 			}
 		}
-		if resEx != nil && abmfEx != nil && !withheld(abmfEx.action) {
+		if resEx != nil && resEx.action.Kind == "boundary" {
+			lateSeen = true
+			if granted >= 0 && granted != int64(resEx.value) {
+				r.sig, r.msg = "crosstalk/rating/foreign-answer", desc+fmt.Sprintf(" -- the answer to this update's own rating request (racing the timeout) allowed %d units", resEx.value)
+				return r
+			}
+		} else if resEx != nil && abmfEx != nil && !withheld(abmfEx.action) && abmfEx.action.Kind != "boundary" {
 			if withheld(resEx.action) {
 				lateSeen = true
 				if granted >= 0 {
@@ -326,6 +362,17 @@ func runScript(sc Script) scriptResult {
 				r.sig, r.msg = "own-answer-ignored/rating", desc+fmt.Sprintf(" -- the answer to this update's own rating request (allowed %d) arrived in time but no units were granted", resEx.value)
 				return r
 			}
+		}
+		// the unit cost the operation kept is the tariff of its own last tariff enquiry
+		var lastCost *exchange
+		for _, ex := range mine {
+			if ex.peer == "rating" && ex.role == "cost" {
+				lastCost = ex
+			}
+		}
+		if lastCost != nil && post.UnitCost[1] != uint32(lastCost.tariff) && post.UnitCost[1] != 1 {
+			r.sig, r.msg = "crosstalk/rating/foreign-tariff", desc+fmt.Sprintf(" -- the operation kept unit cost %d; the answer to its own last tariff enquiry carried %d", post.UnitCost[1], lastCost.tariff)
+			return r
 		}
 		if i < len(sc.Steps) && st.GapMs > 0 {
 			time.Sleep(time.Duration(st.GapMs) * time.Millisecond)
@@ -362,7 +409,7 @@ func describe(exs []*exchange) string {
 				a += " (write failed: connection closed)"
 			}
 		}
-		parts = append(parts, fmt.Sprintf("[%s/%s #%d value %d %s%d: %s]", ex.peer, ex.role, ex.k, ex.value, ex.action.Kind, ex.action.Ms, a))
+		parts = append(parts, fmt.Sprintf("[%s/%s #%d value %d tariff %d %s%d: %s]", ex.peer, ex.role, ex.k, ex.value, ex.tariff, ex.action.Kind, ex.action.Ms, a))
 	}
 	return strings.Join(parts, " ")
 }
@@ -403,8 +450,94 @@ func judgeBatch(b Batch) *h.Verdict {
 	return v
 }
 
+// a batch of scripts in which every faulted answer races the client's timer
+func genBoundaryBatch(t *rapid.T) Batch {
+	var b Batch
+	n := h.Scale(40, 80)
+	for i := 0; i < n; i++ {
+		us := rapid.IntRange(-2500, 3500).Draw(t, "us")
+		st := Step{Abmf: Action{Kind: "boundary", Ms: 4999, Us: us}, Reserve: Action{Kind: "prompt"}}
+		if i%4 == 3 {
+			st = Step{Abmf: Action{Kind: "prompt"}, Reserve: Action{Kind: "boundary", Ms: 4999, Us: us}}
+		}
+		b.Scripts = append(b.Scripts, Script{Steps: []Step{st, {Abmf: Action{Kind: "slow", Ms: 300}, Reserve: Action{Kind: "prompt"}}, {Abmf: Action{Kind: "prompt"}, Reserve: Action{Kind: "prompt"}}}})
+	}
+	return b
+}
+
+func TestC19Boundary(t *testing.T) {
+	old := runtime.GOMAXPROCS(2) // fewer processors: longer scheduling latencies around the timer
+	defer runtime.GOMAXPROCS(old)
+	h.Run(t, "C19", "boundary", genBoundaryBatch, judgeBatch)
+}
+
+// leftoverTasks counts goroutines still inside the CHF's Diameter client code.
+func leftoverTasks() (int, string) {
+	for i := 0; i < 30; i++ {
+		buf := make([]byte, 16<<20)
+		n := runtime.Stack(buf, true)
+		cnt := 0
+		sample := ""
+		for _, g := range strings.Split(string(buf[:n]), "\n\n") {
+			if strings.Contains(g, "chf/internal/abmf.") || strings.Contains(g, "chf/internal/rating.") {
+				cnt++
+				if sample == "" {
+					lines := strings.Split(g, "\n")
+					if len(lines) > 10 {
+						lines = lines[:10]
+					}
+					sample = strings.Join(lines, "\n")
+				}
+			}
+		}
+		if cnt == 0 || i == 29 {
+			return cnt, sample
+		}
+		time.Sleep(100 * time.Millisecond)
+	}
+	return 0, ""
+}
+
+// C18 under faults: duplicated and withheld answers must not leave tasks behind.
+type surplusCase struct {
+	Subs int    `json:"subs"`
+	N    int    `json:"n"` // updates per subscriber
+	Kind string `json:"kind"`
+}
+
+func judgeSurplus(c surplusCase) *h.Verdict {
+	v := &h.Verdict{NonTrivial: true}
+	v.Label("faulty-answers:" + c.Kind)
+	var b Batch
+	for i := 0; i < c.Subs; i++ {
+		var sc Script
+		for j := 0; j < c.N; j++ {
+			sc.Steps = append(sc.Steps, Step{Abmf: Action{Kind: c.Kind}, Reserve: Action{Kind: c.Kind}})
+		}
+		b.Scripts = append(b.Scripts, sc)
+	}
+	bv := judgeBatch(b)
+	if bv.Failed() {
+		return bv
+	}
+	if n, sample := leftoverTasks(); n > 0 {
+		return v.Failf("tasks-left-after-surplus-answers", "%d subscribers x %d updates answered with %q answers left %d goroutines inside the CHF's Diameter client code, e.g.\n%s", c.Subs, c.N, c.Kind, n, sample)
+	}
+	return v
+}
+
+func TestC18Surplus(t *testing.T) {
+	h.Run(t, "C18", "surplus", func(t *rapid.T) surplusCase {
+		return surplusCase{Subs: rapid.IntRange(2, 6).Draw(t, "subs"), N: rapid.IntRange(2, h.Scale(6, 20)).Draw(t, "n"), Kind: rapid.SampledFrom([]string{"dup", "dup", "prompt"}).Draw(t, "kind")}
+	}, judgeSurplus)
+}
+
 func genAction(t *rapid.T, n string) Action {
-	switch rapid.SampledFrom([]string{"prompt", "prompt", "slow", "late", "late", "drop"}).Draw(t, n) {
+	switch rapid.SampledFrom([]string{"prompt", "prompt", "slow", "late", "late", "drop", "dup", "boundary", "boundary"}).Draw(t, n) {
+	case "dup":
+		return Action{Kind: "dup"}
+	case "boundary":
+		return Action{Kind: "boundary", Ms: 4999, Us: rapid.IntRange(-3000, 4000).Draw(t, n+"Us")}
 	case "slow":
 		return Action{Kind: "slow", Ms: 1000}
 	case "late":
@@ -434,7 +567,11 @@ func genBatch(t *rapid.T) Batch {
 	b.Scripts = append(b.Scripts,
 		Script{Steps: []Step{{Abmf: Action{Kind: "late", Ms: 6500}, Reserve: Action{Kind: "prompt"}}, {Abmf: Action{Kind: "prompt"}, Reserve: Action{Kind: "prompt"}}}},
 		Script{Steps: []Step{{Abmf: Action{Kind: "late", Ms: 5500}, Reserve: Action{Kind: "prompt"}}, {Abmf: Action{Kind: "slow", Ms: 1000}, Reserve: Action{Kind: "prompt"}}, {Abmf: Action{Kind: "prompt"}, Reserve: Action{Kind: "prompt"}}}})
-	n := h.Scale(14, 22)
+	// a duplicated (retransmitted) answer on each interface, followed by further requests
+	b.Scripts = append(b.Scripts,
+		Script{Steps: []Step{{Abmf: Action{Kind: "prompt"}, Reserve: Action{Kind: "dup"}}, {Abmf: Action{Kind: "prompt"}, Reserve: Action{Kind: "prompt"}}}},
+		Script{Steps: []Step{{Abmf: Action{Kind: "dup"}, Reserve: Action{Kind: "prompt"}}, {Abmf: Action{Kind: "prompt"}, Reserve: Action{Kind: "prompt"}}}})
+	n := h.Scale(12, 20)
 	for i := 0; i < n; i++ {
 		b.Scripts = append(b.Scripts, genScript(t))
 	}
